@@ -15,6 +15,24 @@ package pogreb
 //@   ensures names: forall n string :: n != path ==> dirFid[fsys][n] == old(dirFid[fsys][n])
 //@   modifies dirFid[fsys], fLen, fDur, fData, hOpen, hPos, fidOf, fidName
 
-// DB.Backup itself is not under contract: its first loop ranges over the unnamed result of segmentsBySequenceID while
-// appending to another slice of the same element type, and the contract language cannot name the ranged slice to
-// state that the two do not share a backing array.
+// Backup: holds the maintenance lock for its whole duration and the database lock only while it lists the segments;
+// uses no handle of the log that may be closed (compaction may have removed the current segment); creates the lock
+// file of the copy last, so that opening the copy rebuilds its index from the copied log
+//@ func (db *DB) Backup(path string) (err error) [C12,C15]
+//@   requires inv: dbInv(db) && db.opts.rootFS != nil
+//@   requires unlocked: lockSt[fieldaddr(db, mu)] == 0 && lockSt[fieldaddr(db, maintenanceMu)] == 0
+//@   ensures unlocked: lockSt[fieldaddr(db, mu)] == 0 && lockSt[fieldaddr(db, maintenanceMu)] == 0
+//@   ensures [C12] source-listing-untouched: forall n string :: dirFid[db.opts.FileSystem][n] == old(dirFid[db.opts.FileSystem][n])
+//@   at return: assert [C12] copy-has-lock-file: err == nil ==> dirFid[dstFS]["lock"] != 0
+//@   modifies *
+//@   loop 1:
+//@     invariant db == old(db) && lockSt[fieldaddr(db, mu)] == 1 && lockSt[fieldaddr(db, maintenanceMu)] == 2
+//@     invariant 0 <= rangeindex#1 && len(segments) >= 0 && (arr(segments) == 0 || (fresh(segments) && arr(segments) != arr(rangeslice#1)))
+//@     invariant forall q int :: off(segments) <= q && q < off(segments) + len(segments) ==> contents(segments)[q] != nil
+//@     invariant forall q int :: off(rangeslice#1) <= q && q < off(rangeslice#1) + len(rangeslice#1) ==> segOK(contents(rangeslice#1)[q])
+//@     modifies segments[*], mapof(activeSegmentSizes)
+//@   loop 2:
+//@     invariant db == old(db) && lockSt[fieldaddr(db, mu)] == 0 && lockSt[fieldaddr(db, maintenanceMu)] == 2
+//@     invariant 0 <= rangeindex#2 && srcFS != nil && dstFS != nil && srcFS == db.opts.FileSystem && dstFS != srcFS
+//@     invariant forall n string :: dirFid[db.opts.FileSystem][n] == old(dirFid[db.opts.FileSystem][n])
+//@     invariant forall q int :: off(segments) <= q && q < off(segments) + len(segments) ==> contents(segments)[q] != nil
